@@ -141,17 +141,31 @@ class BuildDirs:
         parent = os.path.dirname(prev_parent)
         with self._lock:
             self._removed_files.discard(os.path.normcase(filename))
+            is_reserved = False
             while parent != prev_parent:
                 norm_cased_parent = os.path.normcase(parent)
-                count = self._build_dir_counts.get(norm_cased_parent, 0)
-                self._build_dir_counts[norm_cased_parent] = count + 1
-                if count > 0:
+                if not is_reserved:
+                    count = self._build_dir_counts.get(norm_cased_parent, 0)
+                    self._build_dir_counts[norm_cased_parent] = count + 1
+                    is_reserved = count > 0
+                if (parent in created_dirs_set or
+                        (not is_reserved and
+                            norm_cased_parent in self._error_created_dirs)):
+                    # The second condition is for the case where another
+                    # thread virtually removed the directory after the caller
+                    # determined that it exists. Then the caller is virtually
+                    # recreating it.
+                    if norm_cased_parent not in self._created_dirs_map:
+                        # This includes the case where another thread
+                        # reserved the directory after we created it, because
+                        # it saw that the directory exists. Then we are the
+                        # ones who created it.
+                        self._created_dirs_map[norm_cased_parent] = parent
+                        self._error_created_dirs.discard(norm_cased_parent)
+                        self._removed_files.discard(norm_cased_parent)
+                        locked_created_dirs.append(parent)
+                elif is_reserved:
                     break
-                if parent in created_dirs_set:
-                    self._created_dirs_map[norm_cased_parent] = parent
-                    self._error_created_dirs.discard(norm_cased_parent)
-                    self._removed_files.discard(norm_cased_parent)
-                    locked_created_dirs.append(parent)
 
                 prev_parent = parent
                 parent = os.path.dirname(parent)
